@@ -36,6 +36,8 @@ import HealSparse.Lemmas.FrameWorld
 import HealSparse.Lemmas.TypedWorld
 import HealSparse.Props.C02
 import HealSparse.Props.C03
+import HealSparse.Lemmas.ApiHealpixRT
+import HealSparse.Lemmas.ApiMoc
 namespace HS
 namespace ApiDenseIO
 
@@ -280,7 +282,7 @@ theorem relIO_drop {w : World} {D : DenseWorldIO} (h : RelIO w D) (a : Args) :
   | cons n rest => exact ⟨h.of_maps (relC_drop h.rel n) rfl rfl rfl rfl, rfl⟩
 
 /-- `reset`: the empty world -/
-theorem relIO_reset {w : World} {D : DenseWorldIO} (a : Args) :
+theorem relIO_reset (w : World) (a : Args) :
     RelIO (opReset w a).1 ({} : DenseWorldIO) ∧ (opReset w a).2 = "ok" :=
   ⟨relIO_empty, rfl⟩
 
@@ -555,6 +557,948 @@ theorem relIO_covread {w : World} {D : DenseWorldIO} (h : RelIO w D) (a : Args) 
     refine ⟨h, ?_⟩
     show showBits (apiCovMask m) = _
     rw [hc.covMask_eq]
+
+/-! ### (3) HEALPix interchange: `fromhp`, `genhp` (NEST), `hpximplicit`, `hpxread` -/
+
+open ApiHealpixRT in
+/-- **`HealSparseMap(healpix_map=…)` densely**: the checks of the constructor (orders, length,
+    integer array ⇔ integer sentinel, `check_sentinel`); the map holds the array's entry at every
+    SELECTED pixel (`hp[p] > UNSEEN`) and its own sentinel elsewhere; a coverage pixel is covered
+    iff it holds a selected pixel -/
+def dFromHp (co so : Nat) (dt : DT) (sentinel : Option Val) (hp : List Val) (py : Bool) :
+    Except Err DenseMapC :=
+  if so < co then .error .value else
+  if hp.length != (cfgOf co so).npix then .error .value else
+  if dt.isInt && !(sentinel.isSome && py) then .error .value else
+  if dt.isFlt && (sentinel.isSome && py) then .error .value else
+  match checkSentinel dt sentinel with
+  | .error e => .error e
+  | .ok sent =>
+    .ok ⟨⟨co, so, .plain dt, sent,
+        fun p => if hpSel dt (hp[p]?.getD sent) = true then hp[p]?.getD sent else sent⟩,
+      fun k => (List.range hp.length).any fun p =>
+        hpSel dt (hp[p]?.getD sent) && p >>> (cfgOf co so).shift == k⟩
+
+open ApiHealpixRT in
+theorem apiFromHealpix_corrC (co so : Nat) (dt : DT) (sentinel : Option Val) (hp : List Val)
+    (py : Bool) : OutRelM (apiFromHealpix co so dt sentinel hp py) (dFromHp co so dt sentinel hp py) := by
+  cases hA : apiFromHealpix co so dt sentinel hp py with
+  | error e =>
+    have hA' := hA
+    rw [apiFromHealpix_eq] at hA'
+    unfold fromHpSpec at hA'
+    unfold dFromHp
+    by_cases h1 : so < co
+    · rw [if_pos h1] at hA' ⊢; cases hA'; rfl
+    · rw [if_neg h1] at hA' ⊢
+      by_cases h2 : (hp.length != (cfgOf co so).npix) = true
+      · rw [if_pos h2] at hA' ⊢; cases hA'; rfl
+      · rw [if_neg h2] at hA' ⊢
+        by_cases h3 : (dt.isInt && !(sentinel.isSome && py)) = true
+        · rw [if_pos h3] at hA' ⊢; cases hA'; rfl
+        · rw [if_neg h3] at hA' ⊢
+          by_cases h4 : (dt.isFlt && (sentinel.isSome && py)) = true
+          · rw [if_pos h4] at hA' ⊢; cases hA'; rfl
+          · rw [if_neg h4] at hA' ⊢
+            cases hcs : checkSentinel dt sentinel with
+            | error e' => rw [hcs] at hA'; cases hA'; rfl
+            | ok sent => rw [hcs] at hA'; cases hA'
+  | ok m =>
+    obtain ⟨g1, g2, g3, g4, g5, gok, glen, gabs, gcov⟩ := fromHp_ok hA
+    have hA' := hA
+    rw [apiFromHealpix_eq] at hA'
+    unfold fromHpSpec at hA'
+    unfold dFromHp
+    by_cases h1 : so < co
+    · rw [if_pos h1] at hA'; cases hA'
+    · rw [if_neg h1] at hA' ⊢
+      by_cases h2 : (hp.length != (cfgOf co so).npix) = true
+      · rw [if_pos h2] at hA'; cases hA'
+      · rw [if_neg h2] at hA' ⊢
+        by_cases h3 : (dt.isInt && !(sentinel.isSome && py)) = true
+        · rw [if_pos h3] at hA'; cases hA'
+        · rw [if_neg h3] at hA' ⊢
+          by_cases h4 : (dt.isFlt && (sentinel.isSome && py)) = true
+          · rw [if_pos h4] at hA'; cases hA'
+          · rw [if_neg h4] at hA' ⊢
+            cases hcs : checkSentinel dt sentinel with
+            | error e' => rw [hcs] at hA'; cases hA'
+            | ok sent =>
+              rw [hcs] at hA'
+              have hs : m.sent = sent := by cases hA'; rfl
+              have hcfg : m.c = cfgOf co so := by unfold MapObj.c; rw [g1, g2]
+              refine ⟨⟨gok.1, g5, g1, g2, g3, hs, ?_⟩, ?_⟩
+              · intro p hp'
+                have hlt : p < hp.length := by rw [glen]; exact hp'
+                rw [gabs p hlt]
+                show _ = if hpSel dt (hp[p]?.getD sent) = true then hp[p]?.getD sent else sent
+                rw [List.getElem?_eq_getElem hlt, Option.getD_some, hs]
+              · intro k hk
+                show _ = (List.range hp.length).any fun p =>
+                  hpSel dt (hp[p]?.getD sent) && p >>> (cfgOf co so).shift == k
+                rw [Bool.eq_iff_iff, gcov k hk, List.any_eq_true, hcfg]
+                constructor
+                · rintro ⟨p, hlt, h5, h6⟩
+                  refine ⟨p, List.mem_range.2 hlt, ?_⟩
+                  rw [List.getElem?_eq_getElem hlt, Option.getD_some, h5, h6]
+                  simp
+                · rintro ⟨p, hp1, hp2⟩
+                  have hlt := List.mem_range.1 hp1
+                  rw [List.getElem?_eq_getElem hlt, Option.getD_some] at hp2
+                  simp only [Bool.and_eq_true, beq_iff_eq] at hp2
+                  exact ⟨p, hlt, hp2.1, hp2.2⟩
+
+/-- the arguments of a `fromhp` line -/
+def fromhpReq (a : Args) : Option (DT × Nat × Nat × Option Val × List Val) :=
+  match (a.get? "dtype").bind parseDT, a.nat? "covord", a.nat? "spord", optVal a "sentinel",
+        parseVals (a.getD "vals" "_") with
+  | some dt, some co, some so, some sent, some vals => some (dt, co, so, sent, vals)
+  | _, _, _, _, _ => none
+
+/-- the NEST array of a `fromhp` line: the values, or the RING values reordered through `r2n=` -/
+def fromhpNest (a : Args) (vals : List Val) : Option (List Val) :=
+  if a.getD "nest" "1" == "1" then some vals
+  else (parseNats (a.getD "r2n" "_")).map fun t =>
+    (reorderRingToNest (fun i => rd t.toArray i 0) vals.toArray (.num 0 0)).toList
+
+theorem opFromhp_eqIO (w : World) (a : Args) :
+    opFromhp w a = match fromhpReq a with
+      | some (dt, co, so, sent, vals) =>
+        (match fromhpNest a vals with
+         | none => (w, "bad-op:r2n")
+         | some nest =>
+           match apiFromHealpix co so dt sent nest
+              (a.getD "senttype" (if dt.isInt then "int" else "flt") == "int") with
+           | .ok m => (w.bind (a.getD "r" "tmp") m, "ok")
+           | .error e => (w, errLine e))
+      | none => (w, "bad-op:fromhp") := by
+  unfold opFromhp fromhpReq
+  cases (a.get? "dtype").bind parseDT <;> cases a.nat? "covord" <;> cases a.nat? "spord" <;>
+    cases optVal a "sentinel" <;> cases parseVals (a.getD "vals" "_") <;> rfl
+
+/-- `fromhp r=R dtype= covord= spord= sentinel= vals= [nest=0 r2n=]` -/
+def dFromhpOp (D : DenseWorldIO) (a : Args) : DenseWorldIO × String :=
+  match fromhpReq a with
+  | some (dt, co, so, sent, vals) =>
+    (match fromhpNest a vals with
+     | none => (D, "bad-op:r2n")
+     | some nest =>
+       match dFromHp co so dt sent nest
+          (a.getD "senttype" (if dt.isInt then "int" else "flt") == "int") with
+       | .ok d => ({ D with maps := D.maps.bind (a.getD "r" "tmp") d }, "ok")
+       | .error e => (D, errLine e))
+  | none => (D, "bad-op:fromhp")
+
+theorem relIO_fromhp {w : World} {D : DenseWorldIO} (h : RelIO w D) (a : Args) :
+    RelIO (opFromhp w a).1 (dFromhpOp D a).1 ∧ (opFromhp w a).2 = (dFromhpOp D a).2 := by
+  rw [opFromhp_eqIO]
+  unfold dFromhpOp
+  cases fromhpReq a with
+  | none => exact ⟨h, rfl⟩
+  | some r =>
+    obtain ⟨dt, co, so, sent, vals⟩ := r
+    simp only []
+    cases fromhpNest a vals with
+    | none => exact ⟨h, rfl⟩
+    | some nest =>
+      simp only []
+      have hr := apiFromHealpix_corrC co so dt sent nest
+        (a.getD "senttype" (if dt.isInt then "int" else "flt") == "int")
+      revert hr
+      cases apiFromHealpix co so dt sent nest
+          (a.getD "senttype" (if dt.isInt then "int" else "flt") == "int") <;>
+        cases dFromHp co so dt sent nest
+          (a.getD "senttype" (if dt.isInt then "int" else "flt") == "int") <;> intro hr
+      · cases hr; exact ⟨h, rfl⟩
+      · exact hr.elim
+      · exact hr.elim
+      · exact ⟨h.of_maps (h.rel.bind _ hr) rfl rfl rfl rfl, rfl⟩
+
+/-- the kinds `generate_healpix_map` refuses without a key -/
+def dGenSingleErr (k : Kind) : Option Err :=
+  match k with
+  | .recd _ _ => some .value
+  | .wide _ => some .notImpl
+  | _ => none
+
+/-- the exported NEST array: the value at every valid pixel, `UNSEEN` of the output dtype (the
+    sentinel of a boolean map) elsewhere -/
+def dExport (d : DenseMap) : List Val :=
+  (List.range d.npix).map fun p =>
+    if ApiDenseScalar.dValid d (d.f p) = true then d.f p else ApiHealpixRT.genFill d.hdr
+
+/-- the exported RING array through the tables `n2r` / `r2n` (ANY tables): position `r` is
+    written iff some valid pixel is sent there by `n2r`, and then holds what the map reads at
+    `r2n r` (`get_values_pix(ring pixels, nest=False)`) -/
+def dExportRing (d : DenseMap) (n2r r2n : Array Nat) : List Val :=
+  (List.range d.npix).map fun r =>
+    if (ApiDenseScalar.dValidSet d).any (fun p => rd n2r p 0 == r) then d.f (rd r2n r 0)
+    else ApiHealpixRT.genFill d.hdr
+
+/-- the export proper -/
+def dExportP (d : DenseMap) : Option (Array Nat × Array Nat) → List Val
+  | none => dExport d
+  | some (n2r, r2n) => dExportRing d n2r r2n
+
+/-- **`generate_healpix_map(nside, reduction, nest)` densely** (no `key`): record maps →
+    `ValueError`, wide masks → `NotImplementedError`; every cell must be a float64; a coarser
+    order degrades first (`dDegradeC`), a finer one is refused -/
+def dGenhp (d : DenseMapC) (ordOut : Option Nat) (red : String)
+    (perm : Option (Array Nat × Array Nat)) : Except Err (List Val) :=
+  match dGenSingleErr d.toDense.kind with
+  | some e => .error e
+  | none =>
+    if !ApiDenseMulti.dFitF64 d.toDense then .error .inexact else
+    if ordOut.getD d.toDense.spord < d.toDense.spord then
+      (match dDegradeC d (ordOut.getD d.toDense.spord) red none with
+       | .error e => .error e
+       | .ok s => .ok (dExportP s.toDense perm))
+    else if ordOut.getD d.toDense.spord > d.toDense.spord then .error .value
+    else .ok (dExportP d.toDense perm)
+
+theorem genFill_corr {s : MapObj} {ds : DenseMapC} (hc : CorrC s ds) :
+    ApiHealpixRT.genFill s = ApiHealpixRT.genFill ds.toDense.hdr := by
+  unfold ApiHealpixRT.genFill
+  show (match s.kind with
+    | .plain (.int _ _) => unseenOf (.flt 64)
+    | .plain (.flt b) => unseenOf (.flt b)
+    | _ => s.sent) =
+    (match ds.toDense.kind with
+    | .plain (.int _ _) => unseenOf (.flt 64)
+    | .plain (.flt b) => unseenOf (.flt b)
+    | _ => ds.toDense.sent)
+  rw [hc.corr.kind, hc.corr.sent]
+
+open ApiHealpixRT in
+theorem export_corr {s : MapObj} {ds : DenseMapC} (hc : CorrC s ds) (hs : s.Ok) :
+    exportFull s none = .ok (dExport ds.toDense) := by
+  obtain ⟨l, hl, hlen, hget⟩ := exportFull_nest hs.1 hs.2.1.blankInvalid
+  rw [hl]
+  congr 1
+  have hnp : s.npix = ds.toDense.npix := hc.npix_eq
+  apply List.ext_getElem
+  · rw [hlen, hnp]; simp [dExport]
+  · intro p h1 h2
+    rw [hget p h1]
+    have hp : p < s.npix := by rw [← hlen]; exact h1
+    simp only [dExport, List.getElem_map, List.getElem_range]
+    rw [ApiDenseScalar.corr_valid hc.corr, hc.corr.abs p hp, genFill_corr hc]
+
+/-- writes whose value depends on the target position only: the final array does not depend on
+    the order (nor on repeats) -/
+theorem foldl_set_target {α ι : Type} (L : List ι) (pos : ι → Nat) (g : Nat → α) (A : Array α)
+    (r : Nat) :
+    (L.foldl (fun a x => a.setIfInBounds (pos x) (g (pos x))) A)[r]? =
+      if r < A.size ∧ ∃ x ∈ L, pos x = r then some (g r) else A[r]? := by
+  induction L generalizing A with
+  | nil => simp
+  | cons x L ih =>
+    rw [List.foldl_cons, ih, Array.size_setIfInBounds, Array.getElem?_setIfInBounds]
+    by_cases h1 : r < A.size
+    · by_cases h3 : pos x = r
+      · have hR : r < A.size ∧ ∃ y ∈ x :: L, pos y = r := ⟨h1, x, List.mem_cons_self, h3⟩
+        rw [if_pos hR]
+        by_cases h2 : r < A.size ∧ ∃ y ∈ L, pos y = r
+        · rw [if_pos h2]
+        · rw [if_neg h2, if_pos h3, if_pos (h3 ▸ h1), h3]
+      · have hiff : (r < A.size ∧ ∃ y ∈ x :: L, pos y = r) ↔ (r < A.size ∧ ∃ y ∈ L, pos y = r) := by
+          constructor
+          · rintro ⟨a, y, hy, hyr⟩
+            rcases List.mem_cons.1 hy with rfl | hy
+            · exact absurd hyr h3
+            · exact ⟨a, y, hy, hyr⟩
+          · rintro ⟨a, y, hy, hyr⟩
+            exact ⟨a, y, List.mem_cons_of_mem _ hy, hyr⟩
+        rw [if_neg h3]
+        by_cases h2 : r < A.size ∧ ∃ y ∈ L, pos y = r
+        · rw [if_pos h2, if_pos (hiff.2 h2)]
+        · rw [if_neg h2, if_neg (fun h => h2 (hiff.1 h))]
+    · have hn1 : ¬ (r < A.size ∧ ∃ y ∈ L, pos y = r) := fun h => h1 h.1
+      have hn2 : ¬ (r < A.size ∧ ∃ y ∈ x :: L, pos y = r) := fun h => h1 h.1
+      rw [if_neg hn1, if_neg hn2]
+      have hnone : A[r]? = none := by simp; omega
+      rw [hnone]
+      by_cases h3 : pos x = r
+      · rw [if_pos h3, if_neg (by omega)]
+      · rw [if_neg h3]
+
+open ApiHealpixRT in
+/-- **the RING export is a function of the dense map**, for ANY pair of tables whose second one
+    stays inside the sphere -/
+theorem export_ring_corr {s : MapObj} {ds : DenseMapC} (hc : CorrC s ds) (hs : s.Ok)
+    (n2r r2n : Array Nat) (hb : ∀ r, rd r2n r 0 < s.npix) :
+    exportFull s (some (n2r, r2n)) = .ok (dExportRing ds.toDense n2r r2n) := by
+  have hv := hs.2.1.blankInvalid
+  unfold exportFull generateHealpixRing
+  simp only [validPixels_validList hs.1 hv, Option.map_some, List.foldl_map, Int.toNat_natCast, id]
+  congr 1
+  have hnp : s.npix = ds.toDense.npix := hc.npix_eq
+  apply List.ext_getElem?
+  intro r
+  rw [Array.getElem?_toList,
+    foldl_set_target (validList s) (fun p => rd n2r p 0)
+      (fun r => HS.abs s.c s.vc s.st (rd r2n r 0))]
+  unfold dExportRing
+  rw [List.getElem?_map, Array.size_replicate]
+  have hex : (∃ x ∈ validList s, rd n2r x 0 = r) ↔
+      (ApiDenseScalar.dValidSet ds.toDense).any (fun p => rd n2r p 0 == r) = true := by
+    rw [← ApiDenseScalar.corr_validSet hc.corr, List.any_eq_true]
+    constructor
+    · rintro ⟨x, hx, hxr⟩
+      exact ⟨x, ApiMoc.mem_validSet.2 ((mem_validList hs.1 hv x).1 hx), by simpa using hxr⟩
+    · rintro ⟨x, hx, hxr⟩
+      exact ⟨x, (mem_validList hs.1 hv x).2 (ApiMoc.mem_validSet.1 hx), by simpa using hxr⟩
+  by_cases hr : r < s.npix
+  · have hr' : r < ds.toDense.npix := hnp ▸ hr
+    rw [List.getElem?_range hr', Option.map_some]
+    by_cases he : ∃ x ∈ validList s, rd n2r x 0 = r
+    · have e : HS.abs s.c s.vc s.st (rd r2n r 0) = ds.toDense.f (rd r2n r 0) :=
+        hc.corr.abs _ (hb r)
+      rw [if_pos ⟨hr, he⟩, if_pos (hex.1 he), e]
+    · rw [if_neg (fun h => he h.2), if_neg (fun h => he (hex.2 h))]
+      simp only [Array.getElem?_replicate]
+      rw [if_pos (show r < s.c.npix from hr), genFill_corr hc]
+  · have hr' : ¬ r < ds.toDense.npix := hnp ▸ hr
+    rw [if_neg (fun h => hr h.1)]
+    simp only [Array.getElem?_replicate]
+    rw [if_neg (show ¬ r < s.c.npix from hr), List.getElem?_eq_none (by simpa using hr')]
+    rfl
+
+theorem export_corrP {s : MapObj} {ds : DenseMapC} (hc : CorrC s ds) (hs : s.Ok)
+    (perm : Option (Array Nat × Array Nat))
+    (hb : ∀ n2r r2n, perm = some (n2r, r2n) → ∀ r, rd r2n r 0 < s.npix) :
+    ApiHealpixRT.exportFull s perm = .ok (dExportP ds.toDense perm) := by
+  cases perm with
+  | none => exact export_corr hc hs
+  | some t =>
+    obtain ⟨n2r, r2n⟩ := t
+    exact export_ring_corr hc hs n2r r2n (hb n2r r2n rfl)
+
+open ApiHealpixRT in
+/-- the export without key is a function of the dense map: same array, same refusals (RING:
+    provided the `ring_to_nest` table stays inside the OUTPUT sphere) -/
+theorem genhp_corr {m : MapObj} {d : DenseMapC} (hc : CorrC m d) (hm : m.Ok) (ordOut : Option Nat)
+    (red : String) (perm : Option (Array Nat × Array Nat))
+    (hb : ∀ n2r r2n, perm = some (n2r, r2n) → ∀ r, rd r2n r 0 < 12 * 4 ^ (ordOut.getD m.spord)) :
+    apiGenerateHealpix m ordOut red none perm = dGenhp d ordOut red perm := by
+  rw [apiGenerateHealpix_eq]
+  unfold genSpec dGenhp
+  have hgs : genSingle m none =
+      match dGenSingleErr m.kind with
+      | some e => .error e
+      | none => .ok m := by
+    unfold genSingle dGenSingleErr
+    cases m.kind <;> rfl
+  rw [hgs, ← hc.corr.kind, ← hc.corr.spord]
+  cases dGenSingleErr m.kind with
+  | some e => rfl
+  | none =>
+    simp only []
+    rw [ApiDenseMulti.cellsFitF64_dense hc.corr]
+    by_cases hfit : (!ApiDenseMulti.dFitF64 d.toDense) = true
+    · rw [if_pos hfit, if_pos hfit]
+    · rw [if_neg hfit, if_neg hfit]
+      by_cases h1 : ordOut.getD m.spord < m.spord
+      · rw [if_pos h1, if_pos h1]
+        have hd := degrade_corrC hc hm.2.1 (red := red) (w := none) (wd := none) trivial
+          (fun wm hw => nomatch hw) (ordOut.getD m.spord)
+        revert hd
+        cases hA : apiDegrade m (ordOut.getD m.spord) red none <;>
+          cases dDegradeC d (ordOut.getD m.spord) red none <;> intro hd
+        · cases hd; rfl
+        · exact hd.elim
+        · exact hd.elim
+        · rename_i s ds
+          have hsok := Ok.apiDegrade hm hA
+          have hso := (ApiDegrade.apiDegrade_ok hm.1 hm.2.1.blankInvalid h1 hA).spord
+          have hnp : s.npix = 12 * 4 ^ (ordOut.getD m.spord) := by
+            show (cfgOf s.covord s.spord).npix = _
+            rw [ApiDegrade.cfgOf_npix hsok.1.1, hso]
+          exact export_corrP hd hsok perm fun n2r r2n hp r => by rw [hnp]; exact hb n2r r2n hp r
+      · rw [if_neg h1, if_neg h1]
+        by_cases h2 : ordOut.getD m.spord > m.spord
+        · rw [if_pos h2, if_pos h2]
+        · rw [if_neg h2, if_neg h2]
+          have hnp : m.npix = 12 * 4 ^ (ordOut.getD m.spord) := by
+            show (cfgOf m.covord m.spord).npix = _
+            rw [ApiDegrade.cfgOf_npix hm.1.1, show ordOut.getD m.spord = m.spord by omega]
+          exact export_corrP hc hm perm fun n2r r2n hp r => by rw [hnp]; exact hb n2r r2n hp r
+
+/-- writing indices `p < N` into a table of entries `< N` keeps every entry `< N` -/
+theorem foldl_set_bound (L : List Nat) (pos : Nat → Nat) (N : Nat) (A : Array Nat)
+    (hA : ∀ r, rd A r 0 < N) (hL : ∀ p ∈ L, p < N) :
+    ∀ r, rd (L.foldl (fun (a : Array Nat) p => a.setIfInBounds (pos p) p) A) r 0 < N := by
+  induction L generalizing A with
+  | nil => exact hA
+  | cons x L ih =>
+    rw [List.foldl_cons]
+    refine ih _ (fun r => ?_) fun p hp => hL p (List.mem_cons_of_mem _ hp)
+    unfold rd
+    rw [Array.getElem?_setIfInBounds]
+    split
+    · split
+      · exact hL x List.mem_cons_self
+      · exact Nat.lt_of_le_of_lt (Nat.zero_le _) (hL x List.mem_cons_self)
+    · exact hA r
+
+/-- the `ring_to_nest` table the driver computes from a `nest_to_ring` table no longer than the
+    sphere stays inside the sphere -/
+theorem invTable_bound (n2r : List Nat) {N : Nat} (hN : 0 < N) (hL : n2r.length ≤ N) :
+    ∀ r, rd (ApiHealpixRT.invTable n2r) r 0 < N := by
+  unfold ApiHealpixRT.invTable
+  refine foldl_set_bound _ _ N _ (fun r => ?_) fun p hp => ?_
+  · unfold rd
+    rw [Array.getElem?_replicate]
+    split <;> exact hN
+  · exact Nat.lt_of_lt_of_le (List.mem_range.1 hp) hL
+
+/-- the export tables of a `genhp` line: none (NEST), or the `n2r=` table and the inverse table
+    the driver computes from it -/
+def genhpPerm (a : Args) : Option (Option (Array Nat × Array Nat)) :=
+  if a.getD "nest" "1" == "1" then some none
+  else match parseNats (a.getD "n2r" "_") with
+    | some n2r => some (some (n2r.toArray, ApiHealpixRT.invTable n2r))
+    | none => none
+
+/-- the `genhp` lines covered: no `key=`; NEST export (`nest=1`, the default), or RING export
+    through an `n2r=` table NO LONGER than the output map, whose order `ord=` is then given on
+    the line (a longer table makes the model read `abs` outside the sphere: `C10World`) -/
+def genhpOk (a : Args) : Bool :=
+  (a.nat? "key").isNone &&
+    (a.getD "nest" "1" == "1" ||
+      match parseNats (a.getD "n2r" "_"), a.nat? "ord" with
+      | some t, some o => decide (t.length ≤ 12 * 4 ^ o)
+      | some _, none => false
+      | none, _ => true)
+
+/-- `genhp n [ord=] [red=] [nest=0 n2r=]` (no key): the exported array is printed -/
+def dGenhpOp (D : DenseWorldIO) (a : Args) : DenseWorldIO × String :=
+  dWithMapIO D a fun d =>
+    match genhpPerm a with
+    | none => (D, "bad-op:n2r")
+    | some perm =>
+      match dGenhp d (a.nat? "ord") (a.getD "red" "mean") perm with
+      | .ok l => (D, showVals l)
+      | .error e => (D, errLine e)
+
+theorem relIO_genhp {w : World} {D : DenseWorldIO} (h : RelIO w D) (hw : w.Good) (a : Args)
+    (ha : genhpOk a = true) :
+    RelIO (opGenhp w a).1 (dGenhpOp D a).1 ∧ (opGenhp w a).2 = (dGenhpOp D a).2 := by
+  unfold genhpOk at ha
+  rw [Bool.and_eq_true] at ha
+  have hkey : a.nat? "key" = none := by
+    cases hk : a.nat? "key" with
+    | none => rfl
+    | some x => rw [hk] at ha; exact absurd ha.1 (by simp)
+  have ha2 := ha.2
+  unfold opGenhp dGenhpOp genhpPerm
+  refine relIO_withMap h fun m d hg _ hc => ?_
+  simp only [hkey]
+  split
+  · rename_i hh
+    exfalso
+    revert hh
+    cases m.kind <;> simp
+  · cases hn : (a.getD "nest" "1" == "1") with
+    | true =>
+      simp only [if_true]
+      rw [genhp_corr hc (hw.get hg) _ _ none (fun _ _ hp => nomatch hp)]
+      cases dGenhp d (a.nat? "ord") (a.getD "red" "mean") none <;> exact ⟨h, rfl⟩
+    | false =>
+      rw [hn] at ha2
+      simp only [Bool.false_eq_true, if_false, Bool.false_or] at ha2 ⊢
+      cases hp : parseNats (a.getD "n2r" "_") with
+      | none => exact ⟨h, rfl⟩
+      | some n2r =>
+        rw [hp] at ha2
+        cases ho : a.nat? "ord" with
+        | none => rw [ho] at ha2; cases ha2
+        | some o =>
+          rw [ho] at ha2
+          simp only [decide_eq_true_eq] at ha2
+          simp only []
+          have hN : 0 < 12 * 4 ^ o := Nat.mul_pos (by decide) (Nat.pow_pos (by decide))
+          have e : (List.range n2r.length).foldl
+              (fun (acc : Array Nat) p => acc.setIfInBounds (rd n2r.toArray p 0) p)
+              (Array.replicate n2r.length 0) = ApiHealpixRT.invTable n2r := rfl
+          rw [e, genhp_corr hc (hw.get hg) (some o) _ (some (n2r.toArray, ApiHealpixRT.invTable n2r))
+            (fun a1 a2 hp r => by cases hp; exact invTable_bound n2r hN ha2 r)]
+          cases dGenhp d (some o) (a.getD "red" "mean")
+            (some (n2r.toArray, ApiHealpixRT.invTable n2r)) <;> exact ⟨h, rfl⟩
+
+/-- `hpximplicit f=F dtype= spord= vals= [ordering=RING]`: an IMPLICIT HEALPix-format file (a
+    full-sky column) is stored as given -/
+def dHpximplicitOp (D : DenseWorldIO) (a : Args) : DenseWorldIO × String :=
+  match (a.get? "dtype").bind parseDT, a.nat? "spord", parseVals (a.getD "vals" "_") with
+  | some dt, some so, some vals =>
+    ({ D with hpfiles := (insert D.hpfiles (a.getD "f" "f")
+        (.implicit so dt (a.getD "ordering" "NESTED" == "RING") vals)) }, "ok")
+  | _, _, _ => (D, "bad-op:hpximplicit")
+
+theorem relIO_hpximplicit {w : World} {D : DenseWorldIO} (h : RelIO w D) (a : Args) :
+    RelIO (opHpximplicit w a).1 (dHpximplicitOp D a).1 ∧
+      (opHpximplicit w a).2 = (dHpximplicitOp D a).2 := by
+  unfold opHpximplicit dHpximplicitOp
+  cases (a.get? "dtype").bind parseDT <;> cases a.nat? "spord" <;>
+    cases parseVals (a.getD "vals" "_") <;> try exact ⟨h, rfl⟩
+  refine ⟨⟨relC_of_pool h.rel rfl, h.files, ?_, h.mocs, h.metas⟩, rfl⟩
+  show insert w.hpfiles _ _ = _
+  rw [h.hpfiles]
+
+/-- a write request on a coverage-aware dense map (`update_values_pix`): the values by
+    `ApiDense.dUpdate`, the mask grown by the coverage pixels of the pixels addressed -/
+def dUpdateC (d : DenseMapC) (op : String) (pix : List Nat) (vals : Option (List Val))
+    (single : Bool) : Except Err DenseMapC :=
+  withCov (grown d (.upd op pix vals single)) (dUpdate d.toDense op pix vals single none)
+
+theorem apiUpdate_corrC {m : MapObj} {d : DenseMapC} (hc : CorrC m d) (op : String)
+    (pix : List Nat) (vals : Option (List Val)) (single : Bool) :
+    OutRelM (apiUpdate m op pix vals single) (dUpdateC d op pix vals single) := by
+  refine outRelM_withCov (apiUpdate_corr hc.corr op pix vals single none) ?_
+  intro m' hA k hk
+  have hcm : m'.c = m.c := by rw [(ApiRanges.apiUpdate_ok hA).2.2]; rfl
+  rw [hcm] at hk ⊢
+  rw [apiUpdate_cov hc.corr.wf hA k hk, hc.cov k hk, hc.c_eq]
+  rfl
+
+/-- **reading a HEALPix-format file densely**: an EXPLICIT file (pixel / value columns) is
+    `make_empty` + `update_values_pix` (IndexError on an empty table); an IMPLICIT file is the
+    constructor on the (reordered) column with the default sentinel -/
+def dReadHp (f : HpFile) (co : Nat) (r2n : Option (Array Nat)) : Except Err DenseMapC :=
+  match f with
+  | .explicit so dt S pix vals =>
+    if pix.isEmpty then .error .index else
+    (match apiMakeEmpty co so (.plain dt) (some S) [] with
+     | .error e => .error e
+     | .ok e => dUpdateC (dEmptyC e []) "replace" pix (some vals) false)
+  | .implicit so dt ring vals =>
+    if ring then
+      (match r2n with
+       | some t => dFromHp co so dt none
+          (reorderRingToNest (fun i => rd t i 0) vals.toArray (.num 0 0)).toList dt.isInt
+       | none => .error (.bad "r2n"))
+    else dFromHp co so dt none vals dt.isInt
+
+theorem apiReadHealpix_corrC (f : HpFile) (co : Nat) (r2n : Option (Array Nat)) :
+    OutRelM (apiReadHealpix f co r2n) (dReadHp f co r2n) := by
+  cases f with
+  | explicit so dt S pix vals =>
+    unfold apiReadHealpix dReadHp
+    simp only [bind, Except.bind, throw, throwThe, MonadExceptOf.throw]
+    by_cases hp : pix.isEmpty = true
+    · rw [if_pos hp, if_pos hp]; exact rfl
+    · rw [if_neg hp, if_neg hp]
+      cases hE : apiMakeEmpty co so (.plain dt) (some S) [] with
+      | error e => exact rfl
+      | ok e => exact apiUpdate_corrC (apiMakeEmpty_corrC hE) "replace" pix (some vals) false
+  | implicit so dt ring vals =>
+    cases ring with
+    | false => exact apiFromHealpix_corrC co so dt none vals dt.isInt
+    | true =>
+      cases r2n with
+      | none => exact rfl
+      | some t => exact apiFromHealpix_corrC co so dt none _ dt.isInt
+
+theorem opHpxread_eqIO (w : World) (a : Args) :
+    opHpxread w a =
+      match lookup w.hpfiles (a.getD "f" "f"), a.nat? "covord" with
+      | some f, some co =>
+        (match apiReadHealpix f co ((a.get? "r2n").bind parseNats |>.map List.toArray) with
+         | .ok m => (w.bind (a.getD "r" "tmp") { m with cache := none }, "ok")
+         | .error e => (w, errLine e))
+      | none, _ => (w, "bad-op:no-such-map")
+      | _, _ => (w, "bad-op:hpxread") := rfl
+
+/-- `hpxread f=F r=R covord= [r2n=]` -/
+def dHpxreadOp (D : DenseWorldIO) (a : Args) : DenseWorldIO × String :=
+  match lookup D.hpfiles (a.getD "f" "f"), a.nat? "covord" with
+  | some f, some co =>
+    (match dReadHp f co ((a.get? "r2n").bind parseNats |>.map List.toArray) with
+     | .ok d => ({ D with maps := D.maps.bind (a.getD "r" "tmp") d }, "ok")
+     | .error e => (D, errLine e))
+  | none, _ => (D, "bad-op:no-such-map")
+  | _, _ => (D, "bad-op:hpxread")
+
+theorem relIO_hpxread {w : World} {D : DenseWorldIO} (h : RelIO w D) (a : Args) :
+    RelIO (opHpxread w a).1 (dHpxreadOp D a).1 ∧ (opHpxread w a).2 = (dHpxreadOp D a).2 := by
+  rw [opHpxread_eqIO]
+  unfold dHpxreadOp
+  rw [h.hpfiles]
+  cases lookup D.hpfiles (a.getD "f" "f") <;> cases a.nat? "covord" <;> try exact ⟨h, rfl⟩
+  rename_i f co
+  simp only []
+  have hr := apiReadHealpix_corrC f co ((a.get? "r2n").bind parseNats |>.map List.toArray)
+  revert hr
+  cases apiReadHealpix f co ((a.get? "r2n").bind parseNats |>.map List.toArray) <;>
+    cases dReadHp f co ((a.get? "r2n").bind parseNats |>.map List.toArray) <;> intro hr
+  · cases hr; exact ⟨h, rfl⟩
+  · exact hr.elim
+  · exact hr.elim
+  · exact ⟨h.of_maps (h.rel.bind _ (hr.cache none)) rfl rfl rfl rfl, rfl⟩
+
+/-! ### (4) MOC files: `moc`, `mocread` -/
+
+/-- `moc n f=F`: ValueError on a map without valid pixels; else the UNIQ column of the valid set
+    (`mocWrite` at the map's orders) is stored and printed -/
+def dMocOp (D : DenseWorldIO) (a : Args) : DenseWorldIO × String :=
+  dWithMapIO D a fun d =>
+    if ApiDenseScalar.dValidSet d.toDense = [] then (D, errLine .value)
+    else
+      ({ D with mocs := (insert D.mocs (a.getD "f" "f")
+          (mocWrite d.toDense.spord d.toDense.covord (ApiDenseScalar.dValidSet d.toDense))) },
+        showNats (mocWrite d.toDense.spord d.toDense.covord (ApiDenseScalar.dValidSet d.toDense)))
+
+theorem relIO_moc {w : World} {D : DenseWorldIO} (h : RelIO w D) (hw : w.Good) (a : Args) :
+    RelIO (opMoc w a).1 (dMocOp D a).1 ∧ (opMoc w a).2 = (dMocOp D a).2 := by
+  cases hpos : a.pos with
+  | nil =>
+    unfold opMoc dMocOp withMap dWithMapIO
+    simp only [hpos]
+    exact ⟨h, trivial⟩
+  | cons n rest =>
+    have hm := relC_get h.rel n
+    revert hm
+    cases hg : w.get? n <;> cases hd : D.maps.get? n <;> intro hm
+    · unfold opMoc dMocOp withMap dWithMapIO
+      simp only [hpos, hg, hd]
+      exact ⟨h, trivial⟩
+    · exact hm.elim
+    · exact hm.elim
+    · rename_i m d
+      have hok := hw.get hg
+      rw [ApiMoc.opMoc_eq hpos hg hok.1 hok.2.1.blankInvalid]
+      unfold dMocOp dWithMapIO
+      simp only [hpos, hd]
+      unfold ApiMoc.mocOf
+      rw [ApiDenseScalar.corr_validSet hm.corr, hm.corr.spord, hm.corr.covord]
+      by_cases he : ApiDenseScalar.dValidSet d.toDense = []
+      · rw [if_pos he, if_pos he]; exact ⟨h, rfl⟩
+      · rw [if_neg he, if_neg he]
+        refine ⟨⟨relC_of_pool h.rel rfl, h.files, h.hpfiles, ?_, h.metas⟩, rfl⟩
+        show insert w.mocs _ _ = _
+        rw [h.mocs]
+
+theorem opMocread_eqIO (w : World) (a : Args) :
+    opMocread w a =
+      match lookup w.mocs (a.getD "f" "f"), a.nat? "covord" with
+      | some u, some co =>
+        (match apiMakeEmpty co (mocRead u).1 (.plain .bool) none [] with
+         | .ok e =>
+           (match apiUpdate e "replace" (mocRead u).2 (some [.bool true]) true with
+            | .ok m => (w.bind (a.getD "r" "tmp") { m with cache := none }, "ok")
+            | .error er => (w, errLine er))
+         | .error er => (w, errLine er))
+      | _, _ => (w, "bad-op:no-such-map") := rfl
+
+/-- `mocread f=F r=R covord=`: a boolean map at the largest order of the cells, `True` on the
+    pixels of the cells (`make_empty` + `update_values_pix` on the pixel list `mocRead` expands) -/
+def dMocreadOp (D : DenseWorldIO) (a : Args) : DenseWorldIO × String :=
+  match lookup D.mocs (a.getD "f" "f"), a.nat? "covord" with
+  | some u, some co =>
+    (match apiMakeEmpty co (mocRead u).1 (.plain .bool) none [] with
+     | .ok e =>
+       (match dUpdateC (dEmptyC e []) "replace" (mocRead u).2 (some [.bool true]) true with
+        | .ok d => ({ D with maps := D.maps.bind (a.getD "r" "tmp") d }, "ok")
+        | .error er => (D, errLine er))
+     | .error er => (D, errLine er))
+  | _, _ => (D, "bad-op:no-such-map")
+
+theorem relIO_mocread {w : World} {D : DenseWorldIO} (h : RelIO w D) (a : Args) :
+    RelIO (opMocread w a).1 (dMocreadOp D a).1 ∧ (opMocread w a).2 = (dMocreadOp D a).2 := by
+  rw [opMocread_eqIO]
+  unfold dMocreadOp
+  rw [h.mocs]
+  cases lookup D.mocs (a.getD "f" "f") <;> cases a.nat? "covord" <;> try exact ⟨h, rfl⟩
+  rename_i u co
+  simp only []
+  cases hE : apiMakeEmpty co (mocRead u).1 (.plain .bool) none [] with
+  | error e => exact ⟨h, rfl⟩
+  | ok e =>
+    simp only []
+    have hr := apiUpdate_corrC (apiMakeEmpty_corrC hE) "replace" (mocRead u).2
+      (some [.bool true]) true
+    revert hr
+    cases apiUpdate e "replace" (mocRead u).2 (some [.bool true]) true <;>
+      cases dUpdateC (dEmptyC e []) "replace" (mocRead u).2 (some [.bool true]) true <;> intro hr
+    · cases hr; exact ⟨h, rfl⟩
+    · exact hr.elim
+    · exact hr.elim
+    · exact ⟨h.of_maps (h.rel.bind _ (hr.cache none)) rfl rfl rfl rfl, rfl⟩
+
+/-! ### the interpreter -/
+
+/-- a line of the five families on the extended world: the maps by `ApiDenseAll.dstepArgsAll`,
+    everything else untouched -/
+def dOld (D : DenseWorldIO) (op : String) (a : Args) : DenseWorldIO × String :=
+  ({ D with maps := (dstepArgsAll D.maps op a).1 }, (dstepArgsAll D.maps op a).2)
+
+/-- **the dense interpreter with files**: one parsed line on a `DenseWorldIO` -/
+def dstepArgsIO (D : DenseWorldIO) (op : String) (a : Args) : DenseWorldIO × String :=
+  match op with
+  | "info" => dInfoOp D a
+  | "vpsc" => dVpscOp D a
+  | "drop" => dDropOp D a
+  | "reset" => ({}, "ok")
+  | "meta" => dMetaOp D a
+  | "getmeta" => dGetmetaOp D a
+  | "pack" => dPackIO D a
+  | "write" => dWriteOp D a
+  | "read" => dReadOp D a
+  | "covread" => dCovreadOp D a
+  | "fromhp" => dFromhpOp D a
+  | "genhp" => dGenhpOp D a
+  | "hpximplicit" => dHpximplicitOp D a
+  | "hpxread" => dHpxreadOp D a
+  | "moc" => dMocOp D a
+  | "mocread" => dMocreadOp D a
+  | _ => dOld D op a
+
+/-- the new lines: inspection / housekeeping, user metadata, healsparse files, HEALPix import,
+    NEST export without key, implicit HEALPix files and the HEALPix reader, MOC files -/
+def ioOp (op : String) (a : Args) : Bool :=
+  op == "info" || op == "vpsc" || op == "drop" || op == "reset" || op == "meta" ||
+    op == "getmeta" || op == "write" || op == "read" || op == "covread" || op == "fromhp" ||
+    (op == "genhp" && genhpOk a) || op == "hpximplicit" || op == "hpxread" || op == "moc" ||
+    op == "mocread"
+
+/-- a parsed line the interpreter answers: a line of the five families (`opOkAll`) or a new one -/
+def opOkIO (op : String) (a : Args) : Bool := opOkAll op a || ioOp op a
+
+theorem flagClass_ne_reset (b : Bool) : flagClass b ≠ .reset := by cases b <;> decide
+
+/-- a line of the five families that is not `pack`: the maps step as before, files, HEALPix
+    files, MOCs and metadata are not touched (`Frame`) -/
+theorem relIO_old {w : World} {D : DenseWorldIO} {op : String} {a : Args} {c : PoolClass}
+    (h : RelIO w D) (hw : w.Good2) (hp : opOkAll op a = true)
+    (hf : Frame c false false false .same w a (stepArgs w op a).1) (hc : c ≠ .reset) :
+    RelIO (stepArgs w op a).1 (dOld D op a).1 ∧ (stepArgs w op a).2 = (dOld D op a).2 := by
+  obtain ⟨hr, ha⟩ := rel_stepArgsAll h.rel hw a hp
+  have keep : ∀ {α : Type} {t t' : List (String × α)} {k : String},
+      (c = .reset ∨ tableFrame false k t t') → t' = t := by
+    intro α t t' k hh
+    rcases hh with hh | hh | ⟨hh, _⟩
+    · exact absurd hh hc
+    · exact hh
+    · cases hh
+  exact ⟨h.of_maps hr (keep hf.files) (keep hf.hpfiles) (keep hf.mocs) hf.metas, ha⟩
+
+/-- **one parsed line**: the protocol and the dense interpreter with files stay in agreement
+    and give the same answer (sparse world: `Good2` and `Typed`) -/
+theorem rel_stepArgsIO {w : World} {D : DenseWorldIO} (h : RelIO w D) (hw : w.Good2)
+    (ht : w.Typed) {op : String} (a : Args) (hp : opOkIO op a = true) :
+    RelIO (stepArgs w op a).1 (dstepArgsIO D op a).1 ∧
+      (stepArgs w op a).2 = (dstepArgsIO D op a).2 := by
+  unfold opOkIO at hp
+  rw [Bool.or_eq_true] at hp
+  rcases hp with hp | hp
+  · have hp0 := hp
+    unfold opOkAll at hp
+    simp only [Bool.or_eq_true] at hp
+    rcases hp with (((hp | hp) | hp) | hp) | hp
+    · rcases plainOp_cases hp with rfl | rfl | rfl | rfl | rfl | rfl
+      · exact relIO_old h hw hp0 (frame_opCfg w a) (by decide)
+      · exact relIO_old h hw hp0 (frame_opUpd w a) (by decide)
+      · exact relIO_old h hw hp0 (frame_opUpdr w a) (by decide)
+      · exact relIO_old h hw hp0 (frame_opSet w a) (by decide)
+      · exact relIO_old h hw hp0 (frame_opGet w a) (by decide)
+      · exact relIO_old h hw hp0 (frame_opVals w a) (by decide)
+    · rcases ApiDenseCov.famOp_cases hp with rfl | rfl | rfl | rfl | rfl
+      · exact relIO_old h hw hp0 (frame_opBop w a) (flagClass_ne_reset _)
+      · exact relIO_old h hw hp0 (frame_opInv w a) (flagClass_ne_reset _)
+      · exact relIO_pack h hw.1 a
+      · exact relIO_old h hw hp0 (frame_opCovmask w a) (by decide)
+      · exact relIO_old h hw hp0 (frame_opCopy w a) (by decide)
+    · unfold ApiDenseScalar.famArgs at hp
+      rw [Bool.and_eq_true] at hp
+      rcases ApiDenseScalar.famOp_cases hp.1 with rfl | rfl | rfl | rfl | rfl | rfl | rfl
+      · exact relIO_old h hw hp0 (frame_opCopy w a) (by decide)
+      · exact relIO_old h hw hp0 (frame_opValid w a) (by decide)
+      · exact relIO_old h hw hp0 (frame_opNvalid w a) (by decide)
+      · exact relIO_old h hw hp0 (frame_opCovmap w a) (by decide)
+      · exact relIO_old h hw hp0 (frame_opSop w a) (flagClass_ne_reset _)
+      · exact relIO_old h hw hp0 (frame_opMask w a) (flagClass_ne_reset _)
+      · exact relIO_old h hw hp0 (frame_opAstype w a) (by decide)
+    · rcases ApiDenseBits.famOp_cases hp with rfl | rfl
+      · exact relIO_old h hw hp0 (frame_opBits w a) (by decide)
+      · exact relIO_old h hw hp0 (frame_opChk w a) (by decide)
+    · unfold ApiDenseMulti.famOp at hp
+      simp only [Bool.or_eq_true, beq_iff_eq] at hp
+      rcases hp with ((rfl | rfl) | rfl) | rfl
+      · exact relIO_old h hw hp0 (frame_opMop w a) (by decide)
+      · exact relIO_old h hw hp0 (frame_opUpg w a) (by decide)
+      · exact relIO_old h hw hp0 (frame_opDeg w a) (by decide)
+      · exact relIO_old h hw hp0 (frame_opFracdet w a) (by decide)
+  · unfold ioOp at hp
+    simp only [Bool.or_eq_true, beq_iff_eq, Bool.and_eq_true] at hp
+    rcases hp with
+      (((((((((((((rfl | rfl) | rfl) | rfl) | rfl) | rfl) | rfl) | rfl) | rfl) | rfl) | ⟨rfl, hg⟩) |
+        rfl) | rfl) | rfl) | rfl
+    · exact relIO_info h a
+    · exact relIO_vpsc h hw.1 a
+    · exact relIO_drop h a
+    · exact relIO_reset w a
+    · exact relIO_meta h a
+    · exact relIO_getmeta h a
+    · exact relIO_write h hw.1 ht a
+    · exact relIO_read h a
+    · exact relIO_covread h a
+    · exact relIO_fromhp h a
+    · exact relIO_genhp h hw.1 a hg
+    · exact relIO_hpximplicit h a
+    · exact relIO_hpxread h a
+    · exact relIO_moc h hw.1 a
+    · exact relIO_mocread h a
+
+/-- on a line of the five families the map part and the answer are those of
+    `ApiDenseAll.dstepArgsAll` -/
+theorem dstepArgsIO_maps (D : DenseWorldIO) {op : String} (a : Args) (hp : opOkAll op a = true) :
+    (dstepArgsIO D op a).1.maps = (dstepArgsAll D.maps op a).1 ∧
+      (dstepArgsIO D op a).2 = (dstepArgsAll D.maps op a).2 := by
+  unfold opOkAll at hp
+  simp only [Bool.or_eq_true] at hp
+  rcases hp with (((hp | hp) | hp) | hp) | hp
+  · rcases plainOp_cases hp with rfl | rfl | rfl | rfl | rfl | rfl <;> exact ⟨rfl, rfl⟩
+  · rcases ApiDenseCov.famOp_cases hp with rfl | rfl | rfl | rfl | rfl
+    · exact ⟨rfl, rfl⟩
+    · exact ⟨rfl, rfl⟩
+    · exact dPackIO_maps D a
+    · exact ⟨rfl, rfl⟩
+    · exact ⟨rfl, rfl⟩
+  · unfold ApiDenseScalar.famArgs at hp
+    rw [Bool.and_eq_true] at hp
+    rcases ApiDenseScalar.famOp_cases hp.1 with rfl | rfl | rfl | rfl | rfl | rfl | rfl <;>
+      exact ⟨rfl, rfl⟩
+  · rcases ApiDenseBits.famOp_cases hp with rfl | rfl <;> exact ⟨rfl, rfl⟩
+  · unfold ApiDenseMulti.famOp at hp
+    simp only [Bool.or_eq_true, beq_iff_eq] at hp
+    rcases hp with ((rfl | rfl) | rfl) | rfl <;> exact ⟨rfl, rfl⟩
+
+/-! ### raw lines and histories -/
+
+/-- **the lines the interpreter answers**: the empty line and every line whose operation is
+    covered (`opOkIO`) -/
+def lineOkIO (line : String) : Bool :=
+  match lineToks line with
+  | [] => true
+  | op :: rest => opOkIO op (parseArgs rest)
+
+/-- every line of the five families is covered -/
+theorem lineOkIO_of_all {line : String} (h : lineOkAll line = true) : lineOkIO line = true := by
+  unfold lineOkAll at h
+  unfold lineOkIO
+  cases htk : lineToks line with
+  | nil => rfl
+  | cons op rest =>
+    rw [htk] at h
+    simp only [] at h ⊢
+    unfold opOkIO
+    rw [h]
+    rfl
+
+/-- the interpreter on a raw line -/
+def dstepIO (D : DenseWorldIO) (line : String) : DenseWorldIO × String :=
+  match lineToks line with
+  | [] => (D, "bad-op:empty")
+  | op :: rest => dstepArgsIO D op (parseArgs rest)
+
+/-- … and on a history, from the empty world -/
+def drunIO (lines : List String) : DenseWorldIO := lines.foldl (fun D l => (dstepIO D l).1) {}
+
+theorem ioOp_not_packed {op : String} {a : Args} (h : ioOp op a = true) :
+    op.startsWith "p." = false := by
+  unfold ioOp at h
+  simp only [Bool.or_eq_true, beq_iff_eq, Bool.and_eq_true] at h
+  rcases h with
+    (((((((((((((rfl | rfl) | rfl) | rfl) | rfl) | rfl) | rfl) | rfl) | rfl) | rfl) | ⟨rfl, _⟩) |
+      rfl) | rfl) | rfl) | rfl <;> decide +kernel
+
+theorem opOkIO_not_packed {op : String} {a : Args} (h : opOkIO op a = true) :
+    op.startsWith "p." = false := by
+  unfold opOkIO at h
+  rw [Bool.or_eq_true] at h
+  rcases h with h | h
+  · exact opOkAll_not_packed h
+  · exact ioOp_not_packed h
+
+/-- **one raw line**: from related worlds (the sparse one satisfying the reachable invariants
+    `Good2` and `Typed`), a covered line leads to related worlds and is answered alike -/
+theorem rel_stepIO {w : World} {D : DenseWorldIO} (hR : RelIO w D) (hw : w.Good2) (ht : w.Typed)
+    {line : String} (hp : lineOkIO line = true) :
+    RelIO (step w line).1 (dstepIO D line).1 ∧ (step w line).2 = (dstepIO D line).2 := by
+  have hstep : step w line = match lineToks line with
+      | [] => (w, "bad-op:empty")
+      | op :: rest =>
+        if op.startsWith "p." then
+          let (pw, o) := stepPacked w.packed op (parseArgs rest)
+          ({ w with packed := pw }, o)
+        else stepArgs w op (parseArgs rest) := rfl
+  rw [hstep]
+  unfold dstepIO
+  unfold lineOkIO at hp
+  cases htk : lineToks line with
+  | nil => exact ⟨hR, rfl⟩
+  | cons op rest =>
+    rw [htk] at hp
+    simp only [opOkIO_not_packed hp, Bool.false_eq_true, if_false]
+    exact rel_stepArgsIO hR hw ht _ hp
+
+/-- related worlds, the sparse one satisfying the reachable invariants: the relation one covered
+    line preserves -/
+structure RelIOA (w : World) (D : DenseWorldIO) : Prop where
+  rel : RelIO w D
+  good : w.Good2
+  typed : w.Typed
+
+theorem relIOA_empty : RelIOA {} {} :=
+  ⟨relIO_empty, ⟨World.good_empty, World.cachePool_empty⟩, World.typed_empty⟩
+
+/-- **one raw line, bundled**: `RelIOA` is preserved and the line is answered alike -/
+theorem relIOA_step {w : World} {D : DenseWorldIO} (h : RelIOA w D) {line : String}
+    (hp : lineOkIO line = true) :
+    RelIOA (step w line).1 (dstepIO D line).1 ∧ (step w line).2 = (dstepIO D line).2 :=
+  ⟨⟨(rel_stepIO h.rel h.good h.typed hp).1, Good2.step h.good line,
+      Typed.step h.good.1 h.typed line⟩, (rel_stepIO h.rel h.good h.typed hp).2⟩
+
+theorem rel_foldlIO (lines : List String) (w : World) (D : DenseWorldIO) (h : RelIOA w D)
+    (hp : ∀ l ∈ lines, lineOkIO l = true) :
+    RelIOA (lines.foldl (fun w l => (step w l).1) w)
+      (lines.foldl (fun D l => (dstepIO D l).1) D) := by
+  induction lines generalizing w D with
+  | nil => exact h
+  | cons l ls ih =>
+    exact ih _ _ (relIOA_step h (hp l List.mem_cons_self)).1
+      fun l' h' => hp l' (List.mem_cons_of_mem _ h')
+
+/-- **histories**: the world a history of covered lines reaches agrees with the dense world with
+    files the interpreter reaches — unconditionally -/
+theorem rel_runLinesIO (lines : List String) (hp : ∀ l ∈ lines, lineOkIO l = true) :
+    RelIO (runLines lines) (drunIO lines) :=
+  (rel_foldlIO lines _ _ relIOA_empty hp).rel
+
+/-- the answers of the interpreter along a history -/
+def danswersIO (lines : List String) : List String :=
+  (lines.foldl (fun (Do : DenseWorldIO × List String) l =>
+    ((dstepIO Do.1 l).1, Do.2 ++ [(dstepIO Do.1 l).2])) ({}, [])).2
+
+theorem answers_foldlIO (lines : List String) (w : World) (D : DenseWorldIO) (acc : List String)
+    (h : RelIOA w D) (hp : ∀ l ∈ lines, lineOkIO l = true) :
+    (lines.foldl (fun (wo : World × List String) l => ((step wo.1 l).1, wo.2 ++ [(step wo.1 l).2]))
+      (w, acc)).2 =
+    (lines.foldl (fun (Do : DenseWorldIO × List String) l =>
+      ((dstepIO Do.1 l).1, Do.2 ++ [(dstepIO Do.1 l).2])) (D, acc)).2 := by
+  induction lines generalizing w D acc with
+  | nil => rfl
+  | cons l ls ih =>
+    obtain ⟨h', ha⟩ := relIOA_step h (hp l List.mem_cons_self)
+    simp only [List.foldl_cons]
+    rw [ha]
+    exact ih _ _ _ h' fun l' hl' => hp l' (List.mem_cons_of_mem _ hl')
+
+/-- **the list of all answers** of a history of covered lines is the list of answers of the dense
+    interpreter with files -/
+theorem answers_eq_danswersIO (lines : List String) (hp : ∀ l ∈ lines, lineOkIO l = true) :
+    answers lines = danswersIO lines :=
+  answers_foldlIO lines _ _ _ relIOA_empty hp
 
 end ApiDenseIO
 end HS
